@@ -28,7 +28,7 @@ ASSUMPTIONS = ['SHA-256 from hashlib is trusted', 'long bit-string contents by r
 NOT_ASSERTED = []
 
 ROUTES = ['builder', 'ctor_tvm', 'ctor_plain', 'boc_bytes', 'boc_hex', 'boc_b64', 'copy', 'parse_to_cell', 'slice_from_cell',
-          'to_builder', 'builder_to_slice', 'builder_from_boc', 'slice_from_boc', 'boc_options']
+          'to_builder', 'builder_to_slice', 'builder_from_boc', 'slice_from_boc', 'boc_options', 'builder_reused', 'slice_reused']
 
 
 def BOUNDS(tier):
@@ -126,6 +126,28 @@ def _routes(rc, refs_lib):
     yield 'builder_to_slice', lambda: base().to_slice().to_cell()
     yield 'builder_from_boc', lambda: Builder.one_from_boc(base().end_cell().to_boc()).end_cell()
     yield 'slice_from_boc', lambda: Slice.one_from_boc(base().end_cell().to_boc()).to_cell()
+    def builder_reused():
+        # the cell is taken, then the SAME builder keeps being written to (common-prefix idiom): the cell must not notice
+        b = base()
+        c = b.end_cell()
+        if len(rc.bits) < 1023:
+            b.store_bit(1)
+        if len(refs_lib) < 4:
+            b.store_ref(c)
+        b.end_cell()
+        return c
+
+    def slice_reused():
+        # the cell is taken from a slice, then the slice is consumed to the end
+        s = base().end_cell().begin_parse()
+        c = s.to_cell()
+        s.load_bits(len(rc.bits))
+        while s.remaining_refs:
+            s.load_ref()
+        return c
+
+    yield 'builder_reused', builder_reused
+    yield 'slice_reused', slice_reused
     yield 'boc_options', lambda: Cell.one_from_boc(base().end_cell().to_boc(has_idx=True, hash_crc32=True, has_cache_bits=True))
 
 
